@@ -242,12 +242,25 @@ func stressChild(seconds int, seed uint64) int {
 			go func() {
 				defer wg.Done()
 				n := int64(0)
+				var prev *ccReqState // the previous request of this worker: its kept copies must not change any more
 				for time.Now().Before(stop) {
 					for k := 0; k < 50; k++ {
 						i := pr.Intn(len(cfg.reqs))
 						rs := ccNewReq(cfg.reqs[i], true)
 						rt.r.ServeHTTP(rs.rec, rs.req)
 						rs.started, rs.finished = true, true
+						rs.ended()
+						if prev != nil {
+							for _, msg := range prev.keptChanged() {
+								mu.Lock()
+								mismatches++
+								if mismatches <= 5 {
+									fmt.Printf("MISMATCH: %s (router: %s)\n", msg, strings.Join(g.setupOps(), "; "))
+								}
+								mu.Unlock()
+							}
+						}
+						prev = rs
 						n++
 						if got := rs.show(rs.phase()); got != want[i] {
 							mu.Lock()
